@@ -126,6 +126,8 @@ extern ssize_t mpt_encode_cobs(MPT_STRUCT(encode_state) *info, const struct iove
 	/* remaining data in cobs */
 	if (code) {
 		if (!(left -= code)) return MPT_ERROR(MissingBuffer);
+		/* next byte may complete the block and needs the following code byte */
+		if (left < 2 && code == (MPT_COBS_MAXLEN - 1)) return MPT_ERROR(MissingBuffer);
 	} else {
 		if (left <= (code = 1)) return MPT_ERROR(MissingBuffer);
 		--left;
